@@ -27,6 +27,9 @@ LEAN = os.path.join(VERIF, "lean")
 CACHE = ompl_build.CACHE
 BIN = os.path.join(CACHE, "bin")
 HARNESS = os.path.join(VERIF, "harness")
+# evidence/ and replays/ belong to runs against /repo itself; a run redirected to another tree (VERIF_REPO, used to
+# try seeded changes) writes them under that tree's cache directory so the committed evidence is never overwritten
+OUT_ROOT = VERIF if REPO == "/repo" else CACHE
 
 ALLOWED_AXIOMS = {"propext", "Classical.choice", "Quot.sound"}
 FORBIDDEN = re.compile(r"\bsorry\b|\badmit\b|^\s*axiom\s|native_decide|bv_decide|implemented_by|\bunsafe\s|maxHeartbeats\s+0\b",
@@ -433,7 +436,7 @@ class Check:
             self.count("known_finding:" + k["id"])
             return False
         self._replay_n += 1
-        d = os.path.join(VERIF, "replays", self.prop)
+        d = os.path.join(OUT_ROOT, "replays", self.prop)
         os.makedirs(d, exist_ok=True)
         path = os.path.join(d, "%d-%d.json" % (self.seed, self._replay_n))
         rel = os.path.relpath(path, VERIF)
@@ -483,8 +486,8 @@ class Check:
             "coverage": cov, "assumptions": self.assumptions, "wall_s": round(wall, 2),
             "violations": len(self.violations),
         }
-        os.makedirs(os.path.join(VERIF, "evidence"), exist_ok=True)
-        json.dump(ev, open(os.path.join(VERIF, "evidence", self.prop + ".json"), "w"), indent=1)
+        os.makedirs(os.path.join(OUT_ROOT, "evidence"), exist_ok=True)
+        json.dump(ev, open(os.path.join(OUT_ROOT, "evidence", self.prop + ".json"), "w"), indent=1)
         for k in self.known_printed:
             print("KNOWN-FINDING: property=%s %s [%s]" % (self.prop, k.get("what", ""), k["id"]))
         for path, found in self.violations:
